@@ -261,6 +261,12 @@ Definition refwrap_ops_spec (a b : Z) : Z * Z * Z := (a + b + 1, a + 1, b).
 Definition fref_ops_spec (v : Z) : list Z := [v + 1; v + 20; v + 20; v + 20; v + 20; v + 1].
 Definition notfn_static_spec (v : Z) : bool := 0 <=? v.
 
+(* [func.bind.partial] / [func.not.fn]: the call wrappers are copy- / move-constructible when their state entities are; a copy
+   holds its own copy of the target object and of the bound arguments, a moved-to wrapper holds the moved state; a
+   reference_wrapper state entity refers to the same object in all copies *)
+Definition wrapcopy_spec (x y : Z) : list Z * list bool * Z :=
+  ([ 1000 * x + 10 * y + 1001; 1000 * x + 10 * y + 2002; 1000 * x + 10 * y + 2003; 1000 * x + 10 * y + 3004 ],
+   [ x <=? y; x <=? y ], x + 2).
 Definition void_ret_spec (x : Z) : Z := 3 * x + 3.
 (* [pairs.spec] make_pair: unwrap_ref_decay_t: reference_wrapper<X> -> X&, everything else decays *)
 Definition make_pair_member_spec (wrapped : option bool) : ty :=
@@ -415,6 +421,11 @@ Definition tuple_swap_refs_spec (a b c d : Z) : list Z := [c; d; a; b; a; b; c; 
 Definition fref_ptr_spec (v : Z) : list Z * list bool :=
   ([v + 1; v + 1; v + 1; v + 2], [false; false; true; true; false; true]).
 
+(* [func.bind.partial]: the call wrapper's target object is direct-non-list-initialised with std::forward<F>(f), every bound
+   argument object (of type decay_t) with std::forward<Args>(args); [func.not.fn]: the same for the target of not_fn: copied
+   from an lvalue or const argument, moved from a non-const rvalue *)
+Definition wrapper_ctor_spec (fc : ty) (bound : list ty) : option (built * list built) :=
+  do bf <- init_spec (mkty false RNone) fc; do bs <- map_opt (init_spec (mkty false RNone)) bound; Some (bf, bs).
 (* copies (x10) and moves (x1) of the tracked element prescribed by [func.bind.partial] (bound arguments are decay-copied once,
    delivered as lvalues / xvalues), [func.wrap.func.con] (the target is direct-initialised with std::forward<F>(f)),
    [tuple.creation], [tuple.apply] for the eleven expressions of op xfer *)
